@@ -1,104 +1,187 @@
-(* C04 — lemmas about the stop protocol model of ShutdownDefs.v *)
+(* C04 — lemmas about the stop protocol model of ShutdownDefs.v (several concurrent stoppers) *)
 From Coq Require Import List Arith Lia Bool.
 Import ListNotations.
 Require Import QtlVerif.ShutdownDefs.
+
+(* ------------------------------------------------------------------ stopper lists ----------- *)
+Definition is_check (r : rstate) : nat := match r with RCheck => 1 | _ => 0 end.
+Fixpoint cc (l : list rstate) : nat := match l with [] => 0 | r :: t => is_check r + cc t end.
+
+Lemma cc_upd l : forall i o v, nth_error l i = Some o -> cc (upd l i v) + is_check o = cc l + is_check v.
+Proof.
+  induction l as [|x l IH]; intros [|i] o v H; cbn in *; try discriminate.
+  - injection H as ->. lia.
+  - specialize (IH i o v H). lia.
+Qed.
+Lemma sm_upd l : forall i o v, nth_error l i = Some o -> sm (upd l i v) + sw o = sm l + sw v.
+Proof.
+  induction l as [|x l IH]; intros [|i] o v H; cbn in *; try discriminate.
+  - injection H as ->. lia.
+  - specialize (IH i o v H). lia.
+Qed.
+Lemma in_upd l : forall i v x, In x (upd l i v) -> x = v \/ In x l.
+Proof.
+  induction l as [|y l IH]; intros [|i] v x H; cbn in *; auto.
+  - destruct H; auto.
+  - destruct H as [H|H]; auto. destruct (IH _ _ _ H); auto.
+Qed.
+Lemma nth_upd_same l : forall i o v, nth_error l i = Some o -> nth_error (upd l i v) i = Some v.
+Proof.
+  induction l as [|y l IH]; intros [|i] o v H; cbn in *; try discriminate; [reflexivity|eapply IH; eassumption].
+Qed.
+Lemma upd_length l : forall i v, length (upd l i v) = length l.
+Proof. induction l as [|y l IH]; intros [|i] v; cbn; auto. Qed.
+Lemma cc_pos l : In RCheck l <-> 0 < cc l.
+Proof.
+  induction l as [|x l IH]; cbn; [split; [tauto|lia]|]. split.
+  - intros [->|H]; cbn; [lia|]. apply IH in H. lia.
+  - intros H. destruct x; cbn in H; try (right; apply IH; lia). left; reflexivity.
+Qed.
+Lemma cc_map_undone l : cc (map undone l) = cc l.
+Proof. induction l as [|x l IH]; cbn; [reflexivity|]. rewrite IH. destruct x; reflexivity. Qed.
+Lemma in_map_undone l x : In x (map undone l) -> x <> RDone /\ (x = RIdle \/ In x l).
+Proof.
+  intros H. apply in_map_iff in H. destruct H as [y [<- Hy]]. destruct y; cbn; split; try discriminate; auto.
+Qed.
+Lemma sleeper_exists l : cc l = 0 -> 0 < sm l -> exists i, nth_error l i = Some RSleep.
+Proof.
+  induction l as [|x l IH]; cbn; intros Hc Hs; [lia|].
+  destruct x; cbn in *; try (destruct (IH ltac:(lia) ltac:(lia)) as [i Hi]; exists (S i); exact Hi); try lia.
+  exists 0. reflexivity.
+Qed.
+Lemma errorb_false s : errorb s = false <-> ~ In RError (stops s).
+Proof.
+  unfold errorb. induction (stops s) as [|x l IH]; cbn; [split; [tauto|reflexivity]|].
+  destruct x; cbn; try (rewrite IH; split; [intros H [K|K]; [discriminate|auto]|intros H K; apply H; right; exact K]).
+  split; [discriminate|intros H; exfalso; apply H; left; reflexivity].
+Qed.
 
 (* ------------------------------------------------------------------ the invariant ----------- *)
 Record Inv (s : st) : Prop := {
   i_acc : accepted s = log s ++ opt_list (inflight s) ++ queue s;
   i_pend : pending s = length (queue s) + length (opt_list (inflight s));
   i_now : worker s = false -> queue s = [] /\ inflight s = None;
-  i_mtx : mtx s = true <-> rpc s = RCheck;
-  i_rw : rpc s = RCheck \/ rpc s = RSleep -> worker s = true;
-  i_done : rpc s = RDone -> worker s = false
+  (* mutex discipline: it is held exactly when one stopper is between lock and unlock, and at most
+     one is; the sleeping ones hold nothing *)
+  i_mtx : cc (stops s) = if mtx s then 1 else 0;
+  i_rw : In RCheck (stops s) -> worker s = true;
+  i_done : In RDone (stops s) -> worker s = false;
+  i_noerr : ~ In RError (stops s)
 }.
 
-Lemma step_inv s a s' : Inv s -> step s a = Some s' -> Inv s'.
+Lemma nth_in (l : list rstate) i r : nth_error l i = Some r -> In r l.
+Proof. apply nth_error_In. Qed.
+
+Ltac fin := try assumption; try reflexivity; try discriminate;
+            try (let Hx := fresh in intros Hx; discriminate Hx); try (intros; reflexivity).
+
+Lemma step_inv s a s' : Inv s -> step true s a = Some s' -> Inv s'.
 Proof.
-  intros [Ha Hp Hn Hm Hrw Hd] H. destruct a; cbn [step] in H.
+  intros [Ha Hp Hn Hm Hrw Hd He] H. destruct a; cbn [step] in H.
   - (* post *)
-    destruct (mtx s) eqn:Em; [discriminate|]. destruct (worker s) eqn:Ew; injection H as <-; constructor; cbn.
+    destruct (mtx s) eqn:Em; [discriminate|]. destruct (worker s) eqn:Ew; injection H as <-; constructor; cbn; fin.
     + rewrite Ha, <- !app_assoc. reflexivity.
     + rewrite app_length. cbn. lia.
-    + intros Hx; discriminate Hx.
-    + rewrite <- Hm. tauto.
-    + reflexivity.
-    + intros Hx. specialize (Hd Hx). discriminate.
     + destruct (Hn eq_refl) as [Hq Hi]. rewrite Ha, Hq, Hi. cbn. rewrite !app_nil_r. reflexivity.
-    + exact Hp.
-    + intros _. apply Hn; reflexivity.
-    + rewrite <- Hm. tauto.
-    + exact Hrw.
-    + reflexivity.
   - (* take *)
     destruct (app s) eqn:Eapp; [|discriminate]. destruct (worker s) eqn:Ew; [|discriminate].
     destruct (inflight s) eqn:Ei; [discriminate|]. destruct (queue s) as [|m q] eqn:Eq; [discriminate|].
-    injection H as <-. constructor; cbn.
-    + rewrite Ha. cbn. reflexivity.
-    + rewrite Hp. cbn. lia.
-    + intros Hx; discriminate Hx.
-    + exact Hm.
-    + reflexivity.
-    + intros Hx. specialize (Hd Hx). discriminate.
+    injection H as <-. constructor; cbn; fin. rewrite Hp. cbn. lia.
   - (* done *)
-    destruct (inflight s) as [m|] eqn:Ei; [|discriminate]. injection H as <-. constructor; cbn.
+    destruct (inflight s) as [m|] eqn:Ei; [|discriminate]. injection H as <-. constructor; cbn; try assumption.
     + rewrite Ha. cbn. rewrite <- app_assoc. reflexivity.
     + rewrite Hp. cbn. lia.
     + intros Hw. destruct (Hn Hw) as [_ Hc]. discriminate.
-    + exact Hm.
-    + exact Hrw.
-    + exact Hd.
   - (* reset start *)
-    assert (Hr : (rpc s = RIdle \/ rpc s = RDone) /\ mtx s = false).
-    { destruct (rpc s), (mtx s); try discriminate; auto. }
-    destruct Hr as [Hr Em].
-    assert (H' : (if worker s
-                  then Some (mk_st (app s) true (queue s) (inflight s) (pending s) true RCheck (log s) (accepted s))
-                  else Some (mk_st (app s) false (queue s) (inflight s) (pending s) false RDone (log s) (accepted s)))
-                 = Some s').
-    { destruct Hr as [Hr|Hr]; rewrite Hr, Em in H; exact H. }
-    clear H. destruct (worker s) eqn:Ew; injection H' as <-; constructor; cbn; try assumption;
-      try tauto; try (split; discriminate); try (intros _; apply Hn; reflexivity); try discriminate;
-      try reflexivity; try (intros [Hx|Hx]; discriminate).
+    destruct (nth_error (stops s) i) as [r|] eqn:En; [|discriminate].
+    destruct (startable r) eqn:Es; [|discriminate]. destruct (mtx s) eqn:Em; [discriminate|]. cbn [negb andb] in H.
+    pose proof (cc_upd _ _ _ RCheck En) as C1. pose proof (cc_upd _ _ _ RDone En) as C2.
+    assert (is_check r = 0) by (destruct r; try discriminate; reflexivity).
+    destruct (worker s) eqn:Ew; injection H as <-; constructor; cbn; fin.
+    + cbn in C1. lia.
+    + intros Hx. apply in_upd in Hx. destruct Hx as [Hx|Hx]; [discriminate|]. specialize (Hd Hx). discriminate.
+    + intros Hx. apply in_upd in Hx. destruct Hx as [Hx|Hx]; [discriminate|]. auto.
+    + cbn in C2. lia.
+    + intros Hx. apply in_upd in Hx. destruct Hx as [Hx|Hx]; [discriminate|]. apply cc_pos in Hx. lia.
+    + intros Hx. apply in_upd in Hx. destruct Hx as [Hx|Hx]; [discriminate|]. auto.
   - (* reset check *)
-    destruct (rpc s) eqn:Er; try discriminate.
+    destruct (nth_error (stops s) i) as [r|] eqn:En; [|discriminate]. destruct r; try discriminate.
+    pose proof (Hrw (nth_in _ _ _ En)) as Ew. rewrite Ew in H.
+    assert (Em : mtx s = true).
+    { destruct (mtx s); [reflexivity|]. pose proof (proj1 (cc_pos _) (nth_in _ _ _ En)). lia. }
+    rewrite Em in Hm.
+    pose proof (cc_upd _ _ _ RSleep En) as C1. pose proof (cc_upd _ _ _ RDone En) as C2. cbn in C1, C2.
     destruct (Nat.ltb_spec 0 (pending s)) as [Hgt|Hle]; injection H as <-; constructor; cbn;
-      try assumption; try (split; discriminate); try discriminate; try reflexivity.
-    + intros _. apply Hrw. left; reflexivity.
+      fin; try lia.
+    + intros Hx. apply in_upd in Hx. destruct Hx as [Hx|Hx]; [discriminate|]. specialize (Hd Hx). rewrite Ew in Hd. discriminate.
+    + intros Hx. apply in_upd in Hx. destruct Hx as [Hx|Hx]; [discriminate|]. auto.
     + intros _. rewrite Hp in Hle. destruct (queue s); [|cbn in Hle; lia].
       destruct (inflight s); [cbn in Hle; lia|]. tauto.
-    + intros [Hx|Hx]; discriminate.
+    + intros Hx. apply cc_pos in Hx. lia.
+    + intros Hx. apply in_upd in Hx. destruct Hx as [Hx|Hx]; [discriminate|]. auto.
   - (* wake *)
-    destruct (rpc s) eqn:Er; try discriminate. destruct (mtx s) eqn:Em; [discriminate|].
-    assert (Ew : worker s = true) by (apply Hrw; right; reflexivity). rewrite Ew in H.
-    injection H as <-. constructor; cbn; try assumption; try tauto; try discriminate; try reflexivity.
+    destruct (nth_error (stops s) i) as [r|] eqn:En; [|discriminate]. destruct r; try discriminate.
+    destruct (mtx s) eqn:Em; [discriminate|].
+    pose proof (cc_upd _ _ _ RCheck En) as C1. pose proof (cc_upd _ _ _ RDone En) as C2. cbn in C1, C2.
+    destruct (worker s) eqn:Ew; cbn [orb negb] in H; injection H as <-; constructor; cbn;
+      fin; try lia.
+    + intros Hx. apply in_upd in Hx. destruct Hx as [Hx|Hx]; [discriminate|]. specialize (Hd Hx). discriminate.
+    + intros Hx. apply in_upd in Hx. destruct Hx as [Hx|Hx]; [discriminate|]. auto.
+    + intros Hx. apply cc_pos in Hx. lia.
+    + intros Hx. apply in_upd in Hx. destruct Hx as [Hx|Hx]; [discriminate|]. auto.
   - (* app dies *)
     injection H as <-. constructor; cbn; assumption.
   - (* move *)
-    assert (Hr : (rpc s = RIdle \/ rpc s = RDone) /\ mtx s = false /\ worker s = false).
-    { destruct (rpc s), (mtx s), (worker s); try discriminate; auto. }
-    destruct Hr as [Hr [Em Ew]].
-    assert (H' : Some (mk_st (app s) true (queue s) (inflight s) (pending s) false RIdle (log s) (accepted s)) = Some s').
-    { destruct Hr as [Hr|Hr]; rewrite Hr, Em, Ew in H; exact H. }
-    clear H. injection H' as <-. constructor; cbn; try assumption; try discriminate;
-      try (intros Hx; discriminate Hx); try (split; discriminate).
+    destruct (mtx s) eqn:Em; [discriminate|]. destruct (worker s) eqn:Ew; [discriminate|]. cbn [orb] in H.
+    injection H as <-. constructor; cbn; fin.
+    + rewrite cc_map_undone. exact Hm.
+    + intros Hx. apply in_map_undone in Hx. destruct Hx as [Hx _]. contradiction.
+    + intros Hx. apply in_map_undone in Hx. destruct Hx as [_ [Hx|Hx]]; [discriminate|auto].
 Qed.
 
-Lemma init_inv a w : Inv (init a w).
+Lemma init_inv a w k : Inv (init a w k).
 Proof.
+  assert (R : forall x, In x (repeat RIdle k) -> x = RIdle) by (intros x Hx; apply repeat_spec in Hx; exact Hx).
   constructor; cbn; try reflexivity; try tauto; try discriminate.
-  - split; discriminate.
-  - intros [H|H]; discriminate.
+  - induction k; cbn; [reflexivity|]. apply IHk. intros x Hx. reflexivity || (apply repeat_spec in Hx; exact Hx).
+  - intros Hx. apply R in Hx. discriminate.
+  - intros Hx. apply R in Hx. discriminate.
+  - intros Hx. apply R in Hx. discriminate.
 Qed.
 
-Lemma run_inv_from tr : forall s, Inv s -> Inv (run s tr).
+Lemma run_inv_from tr : forall s, Inv s -> Inv (run true s tr).
 Proof.
   induction tr as [|a r IH]; intros s I; cbn [run]; [exact I|].
-  destruct (step s a) eqn:E; [apply IH; eapply step_inv; eassumption|apply IH; exact I].
+  destruct (step true s a) eqn:E; [apply IH; eapply step_inv; eassumption|apply IH; exact I].
 Qed.
 
-Theorem run_inv a w tr : Inv (run (init a w) tr).
+Theorem run_inv a w k tr : Inv (run true (init a w k) tr).
 Proof. apply run_inv_from, init_inv. Qed.
+
+Lemma run_strict_app rc t1 : forall s t2 s1, run_strict rc s t1 = Some s1 ->
+  run_strict rc s (t1 ++ t2) = run_strict rc s1 t2.
+Proof.
+  induction t1 as [|a r IH]; intros s t2 s1 H; cbn in *.
+  - injection H as <-. reflexivity.
+  - destruct (step rc s a); [apply IH; exact H|discriminate].
+Qed.
+Lemma run_strict_run rc tr : forall s s', run_strict rc s tr = Some s' -> run rc s tr = s'.
+Proof.
+  induction tr as [|a r IH]; intros s s' H; cbn in *.
+  - injection H as <-. reflexivity.
+  - destruct (step rc s a); [apply IH; exact H|discriminate].
+Qed.
+Lemma strict_inv tr s s' : Inv s -> run_strict true s tr = Some s' -> Inv s'.
+Proof. intros I H. rewrite <- (run_strict_run _ _ _ _ H). apply run_inv_from. exact I. Qed.
+
+(* mutual exclusion of the stoppers, in every reachable state *)
+Theorem stops_mutually_exclusive a w k tr :
+  let s := run true (init a w k) tr in
+  cc (stops s) <= 1 /\ (mtx s = true <-> In RCheck (stops s)).
+Proof.
+  intros s. pose proof (run_inv a w k tr) as I. fold s in I. pose proof (i_mtx s I) as Hm.
+  split; [destruct (mtx s); lia|]. rewrite cc_pos. destruct (mtx s); split; intros H; try reflexivity; try discriminate; lia.
+Qed.
 
 (* whenever no worker exists (in particular after a completed stop) everything accepted so far
    has been delivered, in order *)
@@ -107,34 +190,40 @@ Proof.
   intros I Hw. destruct (i_now s I Hw) as [Hq Hi]. rewrite (i_acc s I), Hq, Hi. cbn.
   rewrite app_nil_r. reflexivity.
 Qed.
+Lemma inv_pending0 s : Inv s -> pending s = 0 -> log s = accepted s /\ queue s = [] /\ inflight s = None.
+Proof.
+  intros I Hp. pose proof (i_pend s I) as P. rewrite Hp in P.
+  assert (Hq : queue s = []) by (destruct (queue s); [reflexivity|cbn in P; lia]).
+  assert (Hi : inflight s = None) by (destruct (inflight s); [cbn in P; lia|reflexivity]).
+  rewrite (i_acc s I), Hq, Hi. cbn. rewrite app_nil_r. auto.
+Qed.
 
-Theorem drained_when_stopped a w tr :
-  let s := run (init a w) tr in worker s = false -> log s = accepted s.
+Theorem drained_when_stopped a w k tr :
+  let s := run true (init a w k) tr in worker s = false -> log s = accepted s.
 Proof. intros s. apply inv_drained, run_inv. Qed.
 
-(* a destroyed worker is never touched: once no worker exists no worker step is enabled, nothing
-   is queued for it and nothing is counted as pending (so a later post is synchronous and a later
-   stop returns at once) *)
-Theorem no_worker_activity_after_stop a w tr :
-  let s := run (init a w) tr in worker s = false ->
-  step s ATake = None /\ step s ADone = None /\ queue s = [] /\ inflight s = None /\ pending s = 0.
+(* whenever the stop call of ANY stopper has returned (and async mode was not switched on again) *)
+Theorem drained_when_reset_done a w k tr :
+  let s := run true (init a w k) tr in In RDone (stops s) -> worker s = false /\ log s = accepted s.
 Proof.
-  intros s Hw. pose proof (run_inv a w tr) as I. fold s in I.
+  intros s Hr. pose proof (run_inv a w k tr) as I. fold s in I.
+  split; [apply (i_done s I Hr)|apply inv_drained; [exact I|apply (i_done s I Hr)]].
+Qed.
+
+(* a destroyed worker is never touched *)
+Theorem no_worker_activity_after_stop a w k tr :
+  let s := run true (init a w k) tr in worker s = false ->
+  step true s ATake = None /\ step true s ADone = None /\ queue s = [] /\ inflight s = None /\ pending s = 0.
+Proof.
+  intros s Hw. pose proof (run_inv a w k tr) as I. fold s in I.
   destruct (i_now s I Hw) as [Hq Hi]. pose proof (i_pend s I) as Hp. rewrite Hq, Hi in Hp.
   repeat split; try assumption; cbn [step].
   - rewrite Hw. destruct (app s); reflexivity.
   - rewrite Hi. reflexivity.
 Qed.
 
-Theorem drained_when_reset_done a w tr :
-  let s := run (init a w) tr in rpc s = RDone -> worker s = false /\ log s = accepted s.
-Proof.
-  intros s Hr. pose proof (run_inv a w tr) as I. fold s in I.
-  split; [apply (i_done s I Hr)|apply inv_drained; [exact I|apply (i_done s I Hr)]].
-Qed.
-
-Theorem log_prefix a w tr : let s := run (init a w) tr in exists rest, accepted s = log s ++ rest.
-Proof. intros s. pose proof (run_inv a w tr) as I. fold s in I. eexists. apply (i_acc s I). Qed.
+Theorem log_prefix a w k tr : let s := run true (init a w k) tr in exists rest, accepted s = log s ++ rest.
+Proof. intros s. pose proof (run_inv a w k tr) as I. fold s in I. eexists. apply (i_acc s I). Qed.
 
 Lemma NoDup_app_l (A : Type) (l r : list A) : NoDup (l ++ r) -> NoDup l.
 Proof.
@@ -143,77 +232,100 @@ Proof.
   intros Hi. apply Hn. apply in_or_app. left; exact Hi.
 Qed.
 
-Theorem never_twice a w tr :
-  let s := run (init a w) tr in NoDup (accepted s) -> NoDup (log s).
+Theorem never_twice a w k tr :
+  let s := run true (init a w k) tr in NoDup (accepted s) -> NoDup (log s).
 Proof.
-  intros s H. destruct (log_prefix a w tr) as [rest E]. fold s in E. rewrite E in H.
+  intros s H. destruct (log_prefix a w k tr) as [rest E]. fold s in E. rewrite E in H.
   eapply NoDup_app_l; exact H.
 Qed.
 
+(* ------------------------------------------------------------------ generic case analysis ---- *)
+Ltac step_cases H :=
+  cbn [step] in H;
+  repeat match type of H with
+         | context [match ?x with _ => _ end] => let E := fresh "E" in destruct x eqn:E; try discriminate
+         | context [if ?x then _ else _] => let E := fresh "E" in destruct x eqn:E; try discriminate
+         end.
+
 (* ------------------------------------------------------------------ monotonicity ------------- *)
-Lemma step_accepted_mono s a s' : step s a = Some s' -> exists rest, accepted s' = accepted s ++ rest.
+Lemma step_accepted_mono rc s a s' : step rc s a = Some s' -> exists rest, accepted s' = accepted s ++ rest.
 Proof.
-  intros H. destruct a; cbn [step] in H.
-  - destruct (mtx s); [discriminate|]. destruct (worker s); injection H as <-; cbn; eexists; reflexivity.
-  - destruct (app s), (worker s), (inflight s), (queue s); try discriminate. injection H as <-. exists []. cbn. rewrite app_nil_r. reflexivity.
-  - destruct (inflight s); [|discriminate]. injection H as <-. exists []. cbn. rewrite app_nil_r. reflexivity.
-  - destruct (rpc s), (mtx s); try discriminate; destruct (worker s); injection H as <-; exists []; cbn; rewrite app_nil_r; reflexivity.
-  - destruct (rpc s); try discriminate. destruct (0 <? pending s); injection H as <-; exists []; cbn; rewrite app_nil_r; reflexivity.
-  - destruct (rpc s), (mtx s); try discriminate. destruct (worker s); injection H as <-; exists []; cbn; rewrite app_nil_r; reflexivity.
-  - injection H as <-. exists []. cbn. rewrite app_nil_r. reflexivity.
-  - destruct (rpc s), (mtx s), (worker s); try discriminate; injection H as <-; exists []; cbn; rewrite app_nil_r; reflexivity.
+  intros H. destruct a; step_cases H; injection H as <-; cbn;
+    try (eexists; reflexivity); exists []; rewrite app_nil_r; reflexivity.
 Qed.
 
-Lemma run_accepted_mono tr : forall s, exists rest, accepted (run s tr) = accepted s ++ rest.
+Lemma run_accepted_mono rc tr : forall s, exists rest, accepted (run rc s tr) = accepted s ++ rest.
 Proof.
   induction tr as [|a r IH]; intros s; cbn [run]; [exists []; rewrite app_nil_r; reflexivity|].
-  destruct (step s a) eqn:E; [|apply IH].
-  destruct (step_accepted_mono _ _ _ E) as [r1 E1]. destruct (IH s0) as [r2 E2].
+  destruct (step rc s a) eqn:E; [|apply IH].
+  destruct (step_accepted_mono _ _ _ _ E) as [r1 E1]. destruct (IH s0) as [r2 E2].
   exists (r1 ++ r2). rewrite E2, E1, app_assoc. reflexivity.
 Qed.
 
-(* a message logged while no worker exists is delivered by the caller, at once *)
-Theorem post_without_worker_is_synchronous s m s' :
-  worker s = false -> step s (APost m) = Some s' ->
+Theorem post_without_worker_is_synchronous rc s m s' :
+  worker s = false -> step rc s (APost m) = Some s' ->
   log s' = log s ++ [m] /\ queue s' = queue s /\ pending s' = pending s.
 Proof.
   intros Hw H. cbn [step] in H. destruct (mtx s); [discriminate|]. rewrite Hw in H.
   injection H as <-. cbn. auto.
 Qed.
 
-(* a message logged while a worker exists (in particular during the wait loop of a stop) is
-   queued and counted *)
-Theorem post_with_worker_is_queued s m s' :
-  worker s = true -> step s (APost m) = Some s' ->
-  queue s' = queue s ++ [m] /\ pending s' = S (pending s) /\ log s' = log s /\ rpc s' = rpc s.
+Theorem post_with_worker_is_queued rc s m s' :
+  worker s = true -> step rc s (APost m) = Some s' ->
+  queue s' = queue s ++ [m] /\ pending s' = S (pending s) /\ log s' = log s /\ stops s' = stops s.
 Proof.
   intros Hw H. cbn [step] in H. destruct (mtx s); [discriminate|]. rewrite Hw in H.
   injection H as <-. cbn. auto.
 Qed.
 
-(* ... and never dropped: whatever happens afterwards, once no worker exists (a stop has completed)
-   the message is in the log *)
 Theorem accepted_is_never_dropped s m s' tr :
-  Inv s -> step s (APost m) = Some s' -> worker (run s' tr) = false -> In m (log (run s' tr)).
+  Inv s -> step true s (APost m) = Some s' -> worker (run true s' tr) = false -> In m (log (run true s' tr)).
 Proof.
   intros I H Hw. assert (I' : Inv s') by (eapply step_inv; eassumption).
   pose proof (run_inv_from tr s' I') as I2. rewrite (inv_drained _ I2 Hw).
-  destruct (run_accepted_mono tr s') as [rest E]. rewrite E. apply in_or_app. left.
+  destruct (run_accepted_mono true tr s') as [rest E]. rewrite E. apply in_or_app. left.
   cbn [step] in H. destruct (mtx s); [discriminate|]. destruct (worker s); injection H as <-; cbn;
     apply in_or_app; right; left; reflexivity.
 Qed.
 
-(* a stop that wakes up from its sleep and finds no thread (another stop completed meanwhile)
-   returns at once: it takes no mutex, touches neither queue nor log nor counters.  Stated for an
-   ARBITRARY state: in the runs of this one-stop model the situation does not arise (i_rw). *)
-Theorem wake_without_thread_returns s s' :
-  worker s = false -> step s AResetWake = Some s' ->
-  rpc s' = RDone /\ mtx s' = false /\ worker s' = false /\ queue s' = queue s /\ inflight s' = inflight s /\
-  pending s' = pending s /\ log s' = log s /\ accepted s' = accepted s /\ app s' = app s.
+(* ------------------------------------------------------------------ concurrent stops --------- *)
+(* With the re-test after the relock: in every reachable state, whatever the number of stoppers and
+   the interleaving, no stopper is in the error state, and the step that quits/waits/clears is only
+   ever enabled with a live thread *)
+Theorem concurrent_stops_safe a w k tr :
+  let s := run true (init a w k) tr in
+  errorb s = false /\
+  (forall i s', step true s (AResetCheck i) = Some s' -> worker s = true /\ errorb s' = false).
 Proof.
-  intros Hw H. cbn [step] in H. destruct (rpc s); try discriminate. destruct (mtx s); [discriminate|].
-  rewrite Hw in H. injection H as <-. cbn. repeat split; reflexivity.
+  intros s. pose proof (run_inv a w k tr) as I. fold s in I. split.
+  - apply errorb_false. apply (i_noerr s I).
+  - intros i s' H. assert (I' : Inv s') by (eapply step_inv; eassumption). split.
+    + cbn [step] in H. destruct (nth_error (stops s) i) as [r|] eqn:En; [|discriminate].
+      destruct r; try discriminate. apply (i_rw s I). eapply nth_in; eassumption.
+    + apply errorb_false. apply (i_noerr s' I').
 Qed.
+
+(* the repaired wake-up, for an arbitrary state: a stopper that finds no thread after its sleep
+   returns at once: it takes no mutex and touches neither queue nor log nor counters *)
+Theorem wake_without_thread_returns s i s' :
+  worker s = false -> step true s (AResetWake i) = Some s' ->
+  nth_error (stops s') i = Some RDone /\ mtx s' = false /\ worker s' = false /\ queue s' = queue s /\
+  inflight s' = inflight s /\ pending s' = pending s /\ log s' = log s /\ accepted s' = accepted s /\ app s' = app s.
+Proof.
+  intros Hw H. cbn [step] in H. destruct (nth_error (stops s) i) as [r|] eqn:En; [|discriminate].
+  destruct r; try discriminate. destruct (mtx s); [discriminate|]. rewrite Hw in H. cbn in H.
+  injection H as <-. cbn. repeat split; try reflexivity. eapply nth_upd_same; eassumption.
+Qed.
+
+(* before the repair (no re-test): two stoppers reach the error step *)
+Definition two_stops_schedule : list act :=
+  [APost 0; AResetStart 0; AResetCheck 0; AResetStart 1; AResetCheck 1; ATake; ADone;
+   AResetWake 0; AResetCheck 0; AResetWake 1; AResetCheck 1].
+Theorem concurrent_stops_refuted_before_repair :
+  rechecks_after_relock pre_repair_skeleton = false /\
+  exists s, run_strict (rechecks_after_relock pre_repair_skeleton) (init true true 2) two_stops_schedule = Some s
+            /\ errorb s = true /\ worker s = false.
+Proof. split; [reflexivity|]. eexists. split; [vm_compute; reflexivity|]. split; reflexivity. Qed.
 
 (* ------------------------------------------------------------------ F5: the hang ------------- *)
 Lemma stuck_b_spec s : stuck_b s = true <->
@@ -224,157 +336,196 @@ Proof.
   repeat split; discriminate.
 Qed.
 
-Lemma stuck_step s a s' : Inv s -> stuck_b s = true -> step s a = Some s' -> stuck_b s' = true.
+Lemma stuck_step s a s' : Inv s -> stuck_b s = true -> step true s a = Some s' -> stuck_b s' = true.
 Proof.
   intros I S H. apply stuck_b_spec in S. destruct S as (Ha & Hw & Hi & Hq). apply stuck_b_spec.
+  assert (Hp : 0 < pending s) by (rewrite (i_pend s I); destruct (queue s); [contradiction|cbn; lia]).
   destruct a; cbn [step] in H.
   - destruct (mtx s); [discriminate|]. rewrite Hw in H. injection H as <-. repeat split; cbn; try assumption.
     destruct (queue s); [contradiction|discriminate].
   - rewrite Ha in H. discriminate.
   - rewrite Hi in H. discriminate.
-  - destruct (rpc s), (mtx s); try discriminate; rewrite Hw in H; injection H as <-; repeat split; cbn; assumption.
-  - destruct (rpc s); try discriminate.
-    assert (0 < pending s) by (rewrite (i_pend s I); destruct (queue s); [contradiction|cbn; lia]).
-    destruct (Nat.ltb_spec 0 (pending s)); [|lia]. injection H as <-. repeat split; cbn; assumption.
-  - destruct (rpc s), (mtx s); try discriminate. rewrite Hw in H. injection H as <-. repeat split; cbn; assumption.
+  - rewrite Hw in H. step_cases H. injection H as <-. repeat split; cbn; assumption.
+  - rewrite Hw in H. destruct (Nat.ltb_spec 0 (pending s)); [|lia]. step_cases H.
+    injection H as <-. repeat split; cbn; assumption.
+  - rewrite Hw in H. cbn [orb] in H. step_cases H. injection H as <-. repeat split; cbn; assumption.
   - injection H as <-. repeat split; cbn; assumption.
-  - rewrite Hw in H. destruct (rpc s), (mtx s); discriminate.
+  - rewrite Hw in H. rewrite orb_true_r in H. discriminate.
 Qed.
 
+(* from a state with a backlog, an idle worker and no application object: the worker can never be
+   stopped, no stop call of any stopper ever returns *)
 Theorem stuck_forever tr : forall s, Inv s -> stuck_b s = true ->
-  stuck_b (run s tr) = true /\ worker (run s tr) = true /\ rpc (run s tr) <> RDone.
+  stuck_b (run true s tr) = true /\ worker (run true s tr) = true /\ ~ In RDone (stops (run true s tr)).
 Proof.
   induction tr as [|a r IH]; intros s I S; cbn [run].
   - split; [exact S|]. apply stuck_b_spec in S. destruct S as (_ & Hw & _). split; [exact Hw|].
     intros Hr. rewrite (i_done s I Hr) in Hw. discriminate.
-  - destruct (step s a) eqn:E; [apply IH; [eapply step_inv; eassumption|eapply stuck_step; eassumption]|apply IH; assumption].
+  - destruct (step true s a) eqn:E; [apply IH; [eapply step_inv; eassumption|eapply stuck_step; eassumption]|apply IH; assumption].
 Qed.
 
-(* the full-strength claim "a stop returns with or without a live application object" is false of
-   the model: one post, the application object goes away, the destructor's stop starts — and no
-   continuation whatsoever completes it *)
 Theorem reset_hangs_without_app :
-  exists s, (exists tr, s = run (init true true) tr) /\ rpc s = RCheck /\
-            forall tr, rpc (run s tr) <> RDone /\ log (run s tr) <> accepted (run s tr).
+  exists s, (exists tr, s = run true (init true true 1) tr) /\ In RCheck (stops s) /\
+            forall tr, ~ In RDone (stops (run true s tr)) /\ log (run true s tr) <> accepted (run true s tr).
 Proof.
-  exists (run (init true true) [APost 0; AAppDie; AResetStart]). split; [eexists; reflexivity|].
-  split; [reflexivity|]. intros tr.
-  assert (I0 : Inv (run (init true true) [APost 0; AAppDie; AResetStart])) by apply run_inv.
-  assert (S0 : stuck_b (run (init true true) [APost 0; AAppDie; AResetStart]) = true) by reflexivity.
+  exists (run true (init true true 1) [APost 0; AAppDie; AResetStart 0]). split; [eexists; reflexivity|].
+  split; [left; reflexivity|]. intros tr.
+  assert (I0 : Inv (run true (init true true 1) [APost 0; AAppDie; AResetStart 0])) by apply run_inv.
+  assert (S0 : stuck_b (run true (init true true 1) [APost 0; AAppDie; AResetStart 0]) = true) by reflexivity.
   destruct (stuck_forever tr _ I0 S0) as (S & Hw & Hr). split; [exact Hr|].
   pose proof (run_inv_from tr _ I0) as I. apply stuck_b_spec in S. destruct S as (_ & _ & Hi & Hq).
   intros E. rewrite (i_acc _ I), Hi in E. cbn in E.
   rewrite <- (app_nil_r (log _)) in E at 1. apply app_inv_head in E. symmetry in E. contradiction.
 Qed.
 
-(* the same without any application object ever *)
 Theorem reset_hangs_with_no_app_ever :
-  forall tr, rpc (run (run (init false true) [APost 0; AResetStart]) tr) <> RDone.
+  forall tr, ~ In RDone (stops (run true (run true (init false true 1) [APost 0; AResetStart 0]) tr)).
 Proof.
   intros tr.
-  assert (I0 : Inv (run (init false true) [APost 0; AResetStart])) by apply run_inv.
-  assert (S0 : stuck_b (run (init false true) [APost 0; AResetStart]) = true) by reflexivity.
+  assert (I0 : Inv (run true (init false true 1) [APost 0; AResetStart 0])) by apply run_inv.
+  assert (S0 : stuck_b (run true (init false true 1) [APost 0; AResetStart 0]) = true) by reflexivity.
   apply (stuck_forever tr _ I0 S0).
 Qed.
 
 (* ------------------------------------------------------------------ termination, app alive --- *)
-Lemma worker_step_decreases s a s' : (a = ATake \/ a = ADone) -> step s a = Some s' -> mu s' < mu s.
+Lemma worker_step_decreases rc s a s' : (a = ATake \/ a = ADone) -> step rc s a = Some s' -> mu s' < mu s.
 Proof.
   intros [->| ->] H; cbn [step] in H; unfold mu.
   - destruct (app s), (worker s), (inflight s), (queue s); try discriminate. injection H as <-. cbn. lia.
   - destruct (inflight s) eqn:E; [|discriminate]. injection H as <-. cbn. lia.
 Qed.
 
-(* a worker step is enabled whenever there is work and the application lives *)
-Lemma worker_step_enabled s : Inv s -> app s = true -> worker s = true -> 0 < mu s ->
-  exists a s', (a = ATake \/ a = ADone) /\ step s a = Some s'.
+Lemma worker_step_enabled s : Inv s -> app s = true -> 0 < mu s ->
+  exists a s', (a = ATake \/ a = ADone) /\ step true s a = Some s'.
 Proof.
-  intros I Ha Hw Hm. unfold mu in Hm. destruct (inflight s) as [m|] eqn:Ei.
+  intros I Ha Hm. unfold mu in Hm. destruct (inflight s) as [m|] eqn:Ei.
   - exists ADone. eexists. split; [right; reflexivity|]. cbn [step]. rewrite Ei. reflexivity.
-  - destruct (queue s) as [|m q] eqn:Eq; [cbn in Hm; lia|]. exists ATake. eexists.
-    split; [left; reflexivity|]. cbn [step]. rewrite Ha, Hw, Ei, Eq. reflexivity.
+  - destruct (queue s) as [|m q] eqn:Eq; [cbn in Hm; lia|].
+    assert (Hw : worker s = true).
+    { destruct (worker s) eqn:Ew; [reflexivity|]. destruct (i_now s I Ew) as [Hq _]. rewrite Eq in Hq. discriminate. }
+    exists ATake. eexists. split; [left; reflexivity|]. cbn [step]. rewrite Ha, Hw, Ei, Eq. reflexivity.
 Qed.
 
-Lemma check_finishes s : Inv s -> rpc s = RCheck -> mu s = 0 ->
-  exists s', step s AResetCheck = Some s' /\ rpc s' = RDone /\ worker s' = false /\ log s' = accepted s'.
+Lemma check_finishes s i : Inv s -> nth_error (stops s) i = Some RCheck -> mu s = 0 ->
+  exists s', step true s (AResetCheck i) = Some s' /\ nth_error (stops s') i = Some RDone /\ worker s' = false /\
+             mtx s' = false /\ log s' = accepted s'.
 Proof.
-  intros I Hr Hm. cbn [step]. rewrite Hr.
+  intros I Hr Hm. cbn [step]. rewrite Hr. rewrite (i_rw s I (nth_in _ _ _ Hr)).
   assert (Hq : queue s = []) by (unfold mu in Hm; destruct (queue s); [reflexivity|cbn in Hm; lia]).
   assert (Hi : inflight s = None) by (unfold mu in Hm; destruct (inflight s); [cbn in Hm; lia|reflexivity]).
   assert (Hp : pending s = 0) by (rewrite (i_pend s I), Hq, Hi; reflexivity).
-  rewrite Hp. cbn. eexists. split; [reflexivity|]. split; [reflexivity|]. split; [reflexivity|]. cbn.
-  rewrite (i_acc s I), Hq, Hi. cbn. rewrite app_nil_r. reflexivity.
+  rewrite Hp. cbn. eexists. split; [reflexivity|]. cbn. split; [eapply nth_upd_same; eassumption|].
+  repeat split. rewrite (i_acc s I), Hq, Hi. cbn. rewrite app_nil_r. reflexivity.
 Qed.
 
-(* the check with a non-empty backlog goes to sleep and the stop is not completed *)
-Lemma check_waits s : Inv s -> rpc s = RCheck -> 0 < mu s ->
-  exists s', step s AResetCheck = Some s' /\ rpc s' = RSleep /\ worker s' = worker s.
+Lemma check_waits s i : Inv s -> nth_error (stops s) i = Some RCheck -> 0 < mu s ->
+  exists s', step true s (AResetCheck i) = Some s' /\ nth_error (stops s') i = Some RSleep /\ worker s' = true /\ mtx s' = false.
 Proof.
-  intros I Hr Hm. cbn [step]. rewrite Hr.
-  assert (0 < pending s).
-  { rewrite (i_pend s I). unfold mu in Hm. lia. }
-  destruct (Nat.ltb_spec 0 (pending s)); [|lia]. eexists. split; [reflexivity|]. cbn. auto.
+  intros I Hr Hm. cbn [step]. rewrite Hr. rewrite (i_rw s I (nth_in _ _ _ Hr)).
+  assert (0 < pending s) by (rewrite (i_pend s I); unfold mu in Hm; lia).
+  destruct (Nat.ltb_spec 0 (pending s)); [|lia]. eexists. split; [reflexivity|]. cbn.
+  split; [eapply nth_upd_same; eassumption|auto].
 Qed.
 
-Lemma drain_run q : forall p m r l acc,
-  run_strict (mk_st true true q None p m r l acc) (drain_schedule (length q))
+Lemma drain_run rc q : forall p m r l acc,
+  run_strict rc (mk_st true true q None p m r l acc) (drain_schedule (length q))
   = Some (mk_st true true [] None (p - length q) m r (l ++ q) acc).
 Proof.
   induction q as [|x q IH]; intros p m r l acc; cbn [length drain_schedule run_strict].
   - rewrite Nat.sub_0_r, app_nil_r. reflexivity.
-  - cbn [step app worker inflight queue pending mtx rpc log accepted].
+  - cbn [step app worker inflight queue pending mtx stops log accepted].
     rewrite IH. f_equal. f_equal; [destruct p; cbn; lia|rewrite <- app_assoc; reflexivity].
 Qed.
-
-Lemma run_strict_app t1 : forall s t2 s1, run_strict s t1 = Some s1 ->
-  run_strict s (t1 ++ t2) = run_strict s1 t2.
-Proof.
-  induction t1 as [|a r IH]; intros s t2 s1 H; cbn in *.
-  - injection H as <-. reflexivity.
-  - destruct (step s a); [apply IH; exact H|discriminate].
-Qed.
-
-Lemma run_strict_run tr : forall s s', run_strict s tr = Some s' -> run s tr = s'.
-Proof.
-  induction tr as [|a r IH]; intros s s' H; cbn in *.
-  - injection H as <-. reflexivity.
-  - destruct (step s a); [apply IH; exact H|discriminate].
-Qed.
-
 Lemma drain_length q : length (drain_schedule q) = 2 * q.
 Proof. induction q; cbn; [reflexivity|rewrite IHq; lia]. Qed.
 
-(* With the application alive, from any point of the wait loop, the schedule "worker finishes the
-   message in hand, takes and finishes every queued one, the stop wakes up and tests again" is
-   enabled step by step, has at most mu+2 steps and completes the stop with everything delivered.
-   (That the real scheduler eventually runs these steps, the 10 ms sleeps and the 3 s wait are
-   real-time matters outside the model: hence _partial.) *)
-Theorem reset_terminates_partial s :
-  Inv s -> app s = true -> rpc s = RCheck \/ rpc s = RSleep ->
-  exists s', run_strict s (finish_schedule s) = Some s' /\ rpc s' = RDone /\ worker s' = false /\
-             log s' = accepted s /\ accepted s' = accepted s /\ length (finish_schedule s) <= mu s + 2.
+(* phase 1: with the application alive the worker empties the backlog in mu steps *)
+Lemma backlog_drains s : Inv s -> app s = true ->
+  exists tr s', run_strict true s tr = Some s' /\ pending s' = 0 /\ stops s' = stops s /\
+                accepted s' = accepted s /\ length tr = mu s.
 Proof.
-  intros I Ha Hr. pose proof (i_rw s I Hr) as Hw. pose proof (i_acc s I) as Hacc.
-  pose proof (i_pend s I) as Hp. pose proof (i_mtx s I) as Hm.
-  destruct s as [a w q i p m r l acc]. cbn in *. subst a w.
-  unfold finish_schedule, mu. cbn [inflight queue rpc].
-  assert (Hdone : exists p' l', run_strict (mk_st true true q i p m r l acc)
-                                   (match i with Some _ => [ADone] | None => [] end)
-                                = Some (mk_st true true q None p' m r l' acc)
-                                /\ p' = length q /\ l' ++ q = acc).
-  { destruct i as [x|]; cbn.
-    - exists (pred p), (l ++ [x]). split; [reflexivity|]. split; [cbn in Hp; lia|].
-      rewrite Hacc. cbn. rewrite <- app_assoc. reflexivity.
-    - exists p, l. split; [reflexivity|]. split; [cbn in Hp; lia|]. rewrite Hacc. reflexivity. }
-  destruct Hdone as (p' & l' & H1 & Hp' & Hl').
-  rewrite (run_strict_app _ _ _ _ H1). rewrite (run_strict_app _ _ _ _ (drain_run q p' m r l' acc)).
-  rewrite Hp', Nat.sub_diag, Hl'.
-  destruct Hr as [Hr|Hr]; subst r.
-  - cbn. eexists. split; [reflexivity|]. cbn. repeat split; try reflexivity.
-    rewrite !app_length, drain_length. destruct i; cbn; lia.
-  - assert (m = false) by (destruct m; [destruct Hm as [Hm _]; specialize (Hm eq_refl); discriminate|reflexivity]).
-    subst m. cbn. eexists. split; [reflexivity|]. cbn. repeat split; try reflexivity.
-    rewrite !app_length, drain_length. destruct i; cbn; lia.
+  intros I Ha. pose proof (i_acc s I) as Hacc. pose proof (i_pend s I) as Hp. pose proof (i_now s I) as Hn.
+  destruct s as [a w q i p m r l acc]. cbn in *. subst a. unfold mu. cbn [queue inflight].
+  destruct w.
+  - assert (Hdone : exists p' l', run_strict true (mk_st true true q i p m r l acc)
+                                     (match i with Some _ => [ADone] | None => [] end)
+                                  = Some (mk_st true true q None p' m r l' acc) /\ p' = length q).
+    { destruct i as [x|]; cbn.
+      - exists (pred p), (l ++ [x]). split; [reflexivity|cbn in Hp; lia].
+      - exists p, l. split; [reflexivity|cbn in Hp; lia]. }
+    destruct Hdone as (p' & l' & H1 & Hp').
+    exists ((match i with Some _ => [ADone] | None => [] end) ++ drain_schedule (length q)). eexists.
+    split; [rewrite (run_strict_app _ _ _ _ _ H1); apply drain_run|]. cbn.
+    repeat split; [lia|]. rewrite app_length, drain_length. destruct i; cbn; lia.
+  - destruct (Hn eq_refl) as [-> ->]. cbn in Hp. exists []. eexists. split; [reflexivity|]. cbn. auto.
+Qed.
+
+(* phase 2: with an empty backlog every active stopper leaves resetOwnThread: the one holding the
+   mutex quits/clears, the sleepers wake up and either do the same (a thread exists again) or find
+   no thread and return.  sm = 2*sleepers + checkers bounds the number of steps *)
+Lemma stoppers_finish n : forall s, Inv s -> pending s = 0 -> sm (stops s) <= n ->
+  exists tr s', run_strict true s tr = Some s' /\ sm (stops s') = 0 /\ pending s' = 0 /\
+                accepted s' = accepted s /\ length tr <= sm (stops s).
+Proof.
+  induction n as [|n IH]; intros s I Hp Hs.
+  - exists []. exists s. cbn. repeat split; try assumption; lia.
+  - destruct (Nat.eq_dec (sm (stops s)) 0) as [Hz|Hz].
+    { exists []. exists s. cbn. repeat split; try assumption; lia. }
+    pose proof (i_mtx s I) as Hm. destruct (mtx s) eqn:Em.
+    + (* the mutex holder finishes *)
+      assert (Hin : In RCheck (stops s)) by (apply cc_pos; lia).
+      destruct (In_nth_error _ _ Hin) as [i Hi].
+      assert (E : step true s (AResetCheck i)
+                  = Some (mk_st (app s) false (queue s) (inflight s) (pending s) false (upd (stops s) i RDone) (log s) (accepted s))).
+      { cbn [step]. rewrite Hi, (i_rw s I Hin), Hp. reflexivity. }
+      pose proof (sm_upd _ _ _ RDone Hi) as Su. cbn in Su.
+      destruct (IH _ (step_inv _ _ _ I E) Hp ltac:(cbn; lia)) as (tr & s' & Hr & Hs' & Hp' & Ha' & Hl).
+      exists (AResetCheck i :: tr). exists s'. cbn [run_strict]. rewrite E. cbn in *.
+      repeat split; try assumption. lia.
+    + (* a sleeper wakes up *)
+      destruct (sleeper_exists _ Hm ltac:(lia)) as [i Hi].
+      pose proof (sm_upd _ _ _ RCheck Hi) as S1. pose proof (sm_upd _ _ _ RDone Hi) as S2. cbn in S1, S2.
+      destruct (worker s) eqn:Ew.
+      * assert (E : step true s (AResetWake i)
+                    = Some (mk_st (app s) true (queue s) (inflight s) (pending s) true (upd (stops s) i RCheck) (log s) (accepted s))).
+        { cbn [step]. rewrite Hi, Em, Ew. reflexivity. }
+        destruct (IH _ (step_inv _ _ _ I E) Hp ltac:(cbn; lia)) as (tr & s' & Hr & Hs' & Hp' & Ha' & Hl).
+        exists (AResetWake i :: tr). exists s'. cbn [run_strict]. rewrite E. cbn in *.
+        repeat split; try assumption. lia.
+      * assert (E : step true s (AResetWake i)
+                    = Some (mk_st (app s) false (queue s) (inflight s) (pending s) false (upd (stops s) i RDone) (log s) (accepted s))).
+        { cbn [step]. rewrite Hi, Em, Ew. reflexivity. }
+        destruct (IH _ (step_inv _ _ _ I E) Hp ltac:(cbn; lia)) as (tr & s' & Hr & Hs' & Hp' & Ha' & Hl).
+        exists (AResetWake i :: tr). exists s'. cbn [run_strict]. rewrite E. cbn in *.
+        repeat split; try assumption. lia.
+Qed.
+
+Lemma sm_zero_inactive l : sm l = 0 -> forall r, In r l -> is_active r = false.
+Proof.
+  induction l as [|x l IH]; cbn; intros H r Hr; [contradiction|].
+  destruct Hr as [->|Hr]; [destruct r; cbn in *; try reflexivity; lia|].
+  apply IH; [lia|exact Hr].
+Qed.
+
+(* With the application alive and the producers pausing, from ANY reachable situation — any number
+   of stoppers anywhere in resetOwnThread — there is a schedule of at most mu + sm enabled steps
+   after which every stopper has left resetOwnThread and everything accepted is delivered.
+   (That the real scheduler runs these steps, the 10 ms sleeps and the 3 s wait are real-time
+   matters outside the model: hence _partial.) *)
+Theorem all_stops_terminate_partial s :
+  Inv s -> app s = true ->
+  exists tr s', run_strict true s tr = Some s' /\ (forall r, In r (stops s') -> is_active r = false) /\
+                log s' = accepted s' /\ accepted s' = accepted s /\ errorb s' = false /\
+                length tr <= mu s + sm (stops s).
+Proof.
+  intros I Ha. destruct (backlog_drains s I Ha) as (t1 & s1 & H1 & Hp1 & Hs1 & Ha1 & Hl1).
+  pose proof (strict_inv _ _ _ I H1) as I1.
+  destruct (stoppers_finish _ s1 I1 Hp1 (le_n _)) as (t2 & s2 & H2 & Hs2 & Hp2 & Ha2 & Hl2).
+  pose proof (strict_inv _ _ _ I1 H2) as I2.
+  exists (t1 ++ t2). exists s2. split; [rewrite (run_strict_app _ _ _ _ _ H1); exact H2|].
+  split; [apply sm_zero_inactive; exact Hs2|]. split; [apply (inv_pending0 _ I2 Hp2)|].
+  split; [congruence|]. split; [apply errorb_false; apply (i_noerr _ I2)|].
+  rewrite app_length. rewrite Hs1 in Hl2. lia.
 Qed.
 
 (* ------------------------------------------------------------------ the trace acceptor ------- *)
@@ -385,68 +536,74 @@ Proof.
   - injection H as -> ->. rewrite Nat.eqb_refl. cbn. apply IH. reflexivity.
 Qed.
 
-Lemma astep_sound a e a' : astep a e = Some a' -> exists tr, run_strict (ms a) tr = Some (ms a').
+Ltac one_step E act :=
+  match goal with H : _ = Some _ |- _ => idtac end;
+  exists [act]; cbn [run_strict]; rewrite E; reflexivity.
+
+Lemma astep_sound rc a e a' : astep rc a e = Some a' -> exists tr, run_strict rc (ms a) tr = Some (ms a').
 Proof.
   unfold astep. intros H. destruct e.
   - destruct (mem m (accepted (ms a))); [discriminate|].
     destruct (negb (worker (ms a)) && negb (list_eqb (log (ms a)) (obs a))); [discriminate|].
-    destruct (step (ms a) (APost m)) eqn:E; [|discriminate]. injection H as <-.
-    exists [APost m]. cbn [run_strict]. rewrite E. reflexivity.
-  - destruct (step (ms a) ATake) eqn:E; [|discriminate]. injection H as <-.
-    exists [ATake]. cbn [run_strict]. rewrite E. reflexivity.
+    destruct (step rc (ms a) (APost m)) eqn:E; [|discriminate]. injection H as <-. one_step E (APost m).
+  - destruct (step rc (ms a) ATake) eqn:E; [|discriminate]. injection H as <-. one_step E ATake.
   - destruct sync.
     + destruct (negb (worker (ms a)) && list_eqb (log (ms a)) (obs a ++ [m])); [|discriminate].
       injection H as <-. exists []. reflexivity.
     + destruct (inflight (ms a)); [|discriminate].
       destruct (Nat.eqb m n && list_eqb (log (ms a)) (obs a)); [|discriminate].
       injection H as <-. exists []. reflexivity.
-  - destruct (step (ms a) ADone) eqn:E; [|discriminate].
-    destruct (list_eqb (log s) (obs a)); [|discriminate]. injection H as <-.
-    exists [ADone]. cbn [run_strict]. rewrite E. reflexivity.
+  - destruct (step rc (ms a) ADone) eqn:E; [|discriminate].
+    destruct (list_eqb (log s) (obs a)); [|discriminate]. injection H as <-. one_step E ADone.
   - destruct (worker (ms a)); [|discriminate].
-    destruct (step (ms a) AResetStart) eqn:E; [|discriminate]. injection H as <-.
-    exists [AResetStart]. cbn [run_strict]. rewrite E. reflexivity.
-  - destruct (run_strict (ms a) (wake_if_asleep (ms a) ++ [AResetCheck])) eqn:E; [|discriminate].
-    destruct (rpc s); try discriminate. injection H as <-. eexists. exact E.
-  - destruct (run_strict (ms a) (wake_if_asleep (ms a) ++ [AResetCheck])) eqn:E; [|discriminate].
-    destruct (rpc s); try discriminate. destruct (list_eqb (obs a) (accepted s)); [|discriminate].
+    destruct (step rc (ms a) (AResetStart i)) eqn:E; [|discriminate]. injection H as <-. one_step E (AResetStart i).
+  - destruct (run_strict rc (ms a) (wake_if_asleep (ms a) i ++ [AResetCheck i])) eqn:E; [|discriminate].
+    destruct (nth_error (stops s) i) as [r|]; [|discriminate]. destruct r; try discriminate.
     injection H as <-. eexists. exact E.
-  - destruct (rpc (ms a)), (worker (ms a)); try discriminate.
-    + destruct (step (ms a) AResetStart) eqn:E; [|discriminate]. injection H as <-.
-      exists [AResetStart]. cbn [run_strict]. rewrite E. reflexivity.
+  - destruct (run_strict rc (ms a) (wake_if_asleep (ms a) i ++ [AResetCheck i])) eqn:E; [|discriminate].
+    destruct (nth_error (stops s) i) as [r|]; [|discriminate]. destruct r; try discriminate.
+    destruct (list_eqb (obs a) (accepted s)); [|discriminate]. injection H as <-. eexists. exact E.
+  - destruct (nth_error (stops (ms a)) i) as [r|]; [|discriminate]. destruct r; try discriminate.
+    + destruct (worker (ms a)); [discriminate|].
+      destruct (step rc (ms a) (AResetStart i)) eqn:E; [|discriminate]. injection H as <-. one_step E (AResetStart i).
+    + destruct (worker (ms a)); [discriminate|].
+      destruct (step rc (ms a) (AResetWake i)) eqn:E; [|discriminate].
+      destruct (nth_error (stops s) i) as [r|]; [|discriminate]. destruct r; try discriminate.
+      injection H as <-. one_step E (AResetWake i).
     + injection H as <-. exists []. reflexivity.
-  - destruct (step (ms a) AAppDie) eqn:E; [|discriminate]. injection H as <-.
-    exists [AAppDie]. cbn [run_strict]. rewrite E. reflexivity.
+  - destruct (step rc (ms a) AAppDie) eqn:E; [|discriminate]. injection H as <-. one_step E AAppDie.
   - destruct (worker (ms a)).
     + injection H as <-. exists []. reflexivity.
     + destruct (list_eqb (log (ms a)) (obs a)); [|discriminate].
-      destruct (step (ms a) AMove) eqn:E; [|discriminate]. injection H as <-.
-      exists [AMove]. cbn [run_strict]. rewrite E. reflexivity.
+      destruct (step rc (ms a) AMove) eqn:E; [|discriminate]. injection H as <-. one_step E AMove.
   - destruct (mem m (accepted (ms a))); [|discriminate]. injection H as <-. exists []. reflexivity.
   - destruct (negb (worker (ms a)) && list_eqb (obs a) (accepted (ms a))); [|discriminate].
     injection H as <-. exists []. reflexivity.
 Qed.
 
-Lemma accept_from_sound evs : forall k a a', accept_from k a evs = Accepted a' ->
-  exists tr, run_strict (ms a) tr = Some (ms a').
+Lemma accept_from_sound rc evs : forall k a a', accept_from rc k a evs = Accepted a' ->
+  exists tr, run_strict rc (ms a) tr = Some (ms a').
 Proof.
   induction evs as [|e r IH]; intros k a a' H; cbn [accept_from] in H.
   - injection H as <-. exists []. reflexivity.
-  - destruct (astep a e) eqn:E; [|discriminate].
-    destruct (astep_sound _ _ _ E) as [t1 H1]. destruct (IH _ _ _ H) as [t2 H2].
-    exists (t1 ++ t2). rewrite (run_strict_app _ _ _ _ H1). exact H2.
+  - destruct (astep rc a e) eqn:E; [|discriminate].
+    destruct (astep_sound _ _ _ _ E) as [t1 H1]. destruct (IH _ _ _ H) as [t2 H2].
+    exists (t1 ++ t2). rewrite (run_strict_app _ _ _ _ _ H1). exact H2.
 Qed.
 
 (* an accepted recording is a run of the model in which every action was enabled; the state the
-   acceptor ends in is therefore reachable and satisfies the invariant *)
-Theorem accept_sound app0 w0 evs a :
-  accept_shutdown app0 w0 evs = Accepted a ->
-  (exists tr, run_strict (init app0 w0) tr = Some (ms a) /\ ms a = run (init app0 w0) tr) /\ Inv (ms a).
+   acceptor ends in is therefore reachable, satisfies the invariant, has no stopper in the error
+   state *)
+Theorem accept_sound app0 w0 k evs a :
+  accept_shutdown true app0 w0 k evs = Accepted a ->
+  (exists tr, run_strict true (init app0 w0 k) tr = Some (ms a) /\ ms a = run true (init app0 w0 k) tr)
+  /\ Inv (ms a) /\ errorb (ms a) = false.
 Proof.
-  intros H. destruct (accept_from_sound _ _ _ _ H) as [tr Htr]. cbn [ms] in Htr.
-  pose proof (run_strict_run _ _ _ Htr) as Hr. split.
+  intros H. destruct (accept_from_sound _ _ _ _ _ H) as [tr Htr]. cbn [ms] in Htr.
+  pose proof (run_strict_run _ _ _ _ Htr) as Hr.
+  assert (I : Inv (ms a)) by (rewrite <- Hr; apply run_inv). split; [|split; [exact I|]].
   - exists tr. split; [exact Htr|symmetry; exact Hr].
-  - rewrite <- Hr. apply run_inv.
+  - apply errorb_false. apply (i_noerr _ I).
 Qed.
 
 (* what the recording sink saw, relative to the model's log *)
@@ -455,56 +612,72 @@ Definition AInv (a : acc) : Prop :=
   \/ (exists m, inflight (ms a) = Some m /\ obs a = log (ms a) ++ [m])
   \/ (exists m, worker (ms a) = false /\ log (ms a) = obs a ++ [m]).
 
-Ltac step_cases H :=
-  cbn [step] in H;
-  repeat match type of H with
-         | context [match ?x with _ => _ end] => let E := fresh "E" in destruct x eqn:E; try discriminate
-         | context [if ?x then _ else _] => let E := fresh "E" in destruct x eqn:E; try discriminate
-         end.
+Definition reset_act (a : act) : Prop :=
+  match a with AResetStart _ | AResetCheck _ | AResetWake _ | AAppDie => True | _ => False end.
 
-Lemma reset_steps_keep s tr s' :
-  (forall a, In a tr -> a = AResetWake \/ a = AResetCheck \/ a = AResetStart \/ a = AAppDie) ->
-  run_strict s tr = Some s' ->
+Lemma reset_step_keeps rc s a s' : reset_act a -> step rc s a = Some s' ->
   log s' = log s /\ inflight s' = inflight s /\ (worker s = false -> worker s' = false) /\ accepted s' = accepted s.
 Proof.
-  revert s. induction tr as [|a r IH]; intros s Hin H; cbn [run_strict] in H.
+  intros Hr E. destruct a; cbn in Hr; try contradiction; step_cases E; injection E as <-; cbn; auto.
+Qed.
+
+Lemma reset_steps_keep rc tr : forall s s',
+  (forall a, In a tr -> reset_act a) -> run_strict rc s tr = Some s' ->
+  log s' = log s /\ inflight s' = inflight s /\ (worker s = false -> worker s' = false) /\ accepted s' = accepted s.
+Proof.
+  induction tr as [|a r IH]; intros s s' Hin H; cbn [run_strict] in H.
   - injection H as <-. auto.
-  - destruct (step s a) eqn:E; [|discriminate].
-    assert (K : log s0 = log s /\ inflight s0 = inflight s /\ (worker s = false -> worker s0 = false) /\ accepted s0 = accepted s).
-    { destruct (Hin a (or_introl eq_refl)) as [->|[->|[->| ->]]]; step_cases E; injection E as <-; cbn; auto. }
-    destruct K as (K1 & K2 & K3 & K4).
-    destruct (IH s0 (fun x Hx => Hin x (or_intror Hx)) H) as (J1 & J2 & J3 & J4).
+  - destruct (step rc s a) eqn:E; [|discriminate].
+    destruct (reset_step_keeps _ _ _ _ (Hin a (or_introl eq_refl)) E) as (K1 & K2 & K3 & K4).
+    destruct (IH s0 s' (fun x Hx => Hin x (or_intror Hx)) H) as (J1 & J2 & J3 & J4).
     repeat split; try congruence. auto.
 Qed.
 
-Lemma wake_check_only s a : In a (wake_if_asleep s ++ [AResetCheck]) ->
-  a = AResetWake \/ a = AResetCheck \/ a = AResetStart \/ a = AAppDie.
+Lemma wake_check_only s i a : In a (wake_if_asleep s i ++ [AResetCheck i]) -> reset_act a.
 Proof.
-  unfold wake_if_asleep. destruct (rpc s); cbn; intros H; intuition (subst; auto).
+  unfold wake_if_asleep. destruct (nth_error (stops s) i) as [r|]; [destruct r|]; cbn; intros H;
+    repeat (destruct H as [<-|H]; [exact I|]); contradiction.
 Qed.
 
-Lemma astep_ainv a e a' : Inv (ms a) -> AInv a -> astep a e = Some a' -> AInv a'.
+Lemma ainv_keep a s' : AInv a ->
+  log s' = log (ms a) -> inflight s' = inflight (ms a) -> (worker (ms a) = false -> worker s' = false) ->
+  AInv (mk_acc s' (obs a)).
 Proof.
-  unfold astep, AInv. intros I A H. destruct e.
+  unfold AInv. cbn [ms obs]. intros A K1 K2 K3. rewrite K1, K2.
+  destruct A as [A|[A|[x [A1 A2]]]]; [left; exact A|right; left; exact A|].
+  right; right. exists x. split; [apply K3; exact A1|exact A2].
+Qed.
+
+Lemma one_reset_step rc s act s' : step rc s act = Some s' -> run_strict rc s [act] = Some s'.
+Proof. intros E. cbn [run_strict]. rewrite E. reflexivity. Qed.
+
+Ltac keep E :=
+  let K := fresh "K" in
+  pose proof (fun R => reset_step_keeps _ _ _ _ R E) as K; cbn [reset_act] in K;
+  destruct (K Logic.I) as (K1 & K2 & K3 & K4).
+
+Lemma astep_ainv a e a' : Inv (ms a) -> AInv a -> astep true a e = Some a' -> AInv a'.
+Proof.
+  unfold astep. intros I A H. destruct e.
   - (* post *)
-    destruct (mem m (accepted (ms a))); [discriminate|].
+    unfold AInv in *. destruct (mem m (accepted (ms a))); [discriminate|].
     destruct (worker (ms a)) eqn:Ew; cbn [negb andb] in H.
-    + destruct (step (ms a) (APost m)) eqn:E; [|discriminate]. injection H as <-. cbn [ms obs].
+    + destruct (step true (ms a) (APost m)) eqn:E; [|discriminate]. injection H as <-. cbn [ms obs].
       cbn [step] in E. destruct (mtx (ms a)); [discriminate|]. rewrite Ew in E. injection E as <-. cbn.
       destruct A as [A|[A|[x [A _]]]]; [left; exact A|right; left; exact A|discriminate].
     + destruct (list_eqb (log (ms a)) (obs a)) eqn:El; cbn [negb] in H; [|discriminate].
       apply list_eqb_eq in El.
-      destruct (step (ms a) (APost m)) eqn:E; [|discriminate]. injection H as <-. cbn [ms obs].
+      destruct (step true (ms a) (APost m)) eqn:E; [|discriminate]. injection H as <-. cbn [ms obs].
       cbn [step] in E. destruct (mtx (ms a)); [discriminate|]. rewrite Ew in E. injection E as <-. cbn.
       right; right. exists m. split; [reflexivity|]. rewrite El. reflexivity.
   - (* take *)
-    destruct (step (ms a) ATake) eqn:E; [|discriminate]. injection H as <-. cbn [ms obs].
+    unfold AInv in *. destruct (step true (ms a) ATake) eqn:E; [|discriminate]. injection H as <-. cbn [ms obs].
     cbn [step] in E. destruct (app (ms a)); [|discriminate]. destruct (worker (ms a)) eqn:Ew; [|discriminate].
     destruct (inflight (ms a)) eqn:Ei; [discriminate|]. destruct (queue (ms a)); [discriminate|].
     injection E as <-. cbn.
     destruct A as [A|[[x [A _]]|[x [A _]]]]; [left; exact A|discriminate|discriminate].
   - (* deliver *)
-    destruct sync.
+    unfold AInv in *. destruct sync.
     + destruct (worker (ms a)) eqn:Ew; cbn [negb andb] in H; [discriminate|].
       destruct (list_eqb (log (ms a)) (obs a ++ [m])) eqn:El; [|discriminate].
       apply list_eqb_eq in El. injection H as <-. cbn [ms obs]. left. symmetry. exact El.
@@ -514,71 +687,64 @@ Proof.
       apply list_eqb_eq in El. injection H as <-. cbn [ms obs]. right; left. exists m.
       split; [exact Ei|]. rewrite El. reflexivity.
   - (* done *)
-    destruct (step (ms a) ADone) eqn:E; [|discriminate].
+    unfold AInv. destruct (step true (ms a) ADone) eqn:E; [|discriminate].
     destruct (list_eqb (log s) (obs a)) eqn:El; [|discriminate]. apply list_eqb_eq in El.
     injection H as <-. cbn [ms obs]. left. symmetry. exact El.
   - (* reset locked *)
     destruct (worker (ms a)) eqn:Ew; [|discriminate].
-    destruct (step (ms a) AResetStart) eqn:E; [|discriminate]. injection H as <-. cbn [ms obs].
-    assert (K : run_strict (ms a) [AResetStart] = Some s) by (cbn [run_strict]; rewrite E; reflexivity).
-    apply reset_steps_keep in K; [|cbn; intros x [<-|[]]; auto]. destruct K as (K1 & K2 & K3 & K4).
-    rewrite K1, K2. destruct A as [A|[A|[x [A _]]]]; [left; exact A|right; left; exact A|discriminate].
+    destruct (step true (ms a) (AResetStart i)) eqn:E; [|discriminate]. injection H as <-.
+    keep E. apply ainv_keep; assumption.
   - (* waiting *)
-    destruct (run_strict (ms a) (wake_if_asleep (ms a) ++ [AResetCheck])) eqn:E; [|discriminate].
-    destruct (rpc s); try discriminate. injection H as <-. cbn [ms obs].
+    destruct (run_strict true (ms a) (wake_if_asleep (ms a) i ++ [AResetCheck i])) eqn:E; [|discriminate].
+    destruct (nth_error (stops s) i) as [r|]; [|discriminate]. destruct r; try discriminate. injection H as <-.
     apply reset_steps_keep in E; [|apply wake_check_only]. destruct E as (K1 & K2 & K3 & K4).
-    rewrite K1, K2. destruct A as [A|[A|[x [A1 A2]]]]; [left; exact A|right; left; exact A|].
-    right; right. exists x. split; [apply K3; assumption|exact A2].
+    apply ainv_keep; assumption.
   - (* quit *)
-    destruct (run_strict (ms a) (wake_if_asleep (ms a) ++ [AResetCheck])) eqn:E; [|discriminate].
-    destruct (rpc s); try discriminate. destruct (list_eqb (obs a) (accepted s)); [|discriminate].
-    injection H as <-. cbn [ms obs].
+    destruct (run_strict true (ms a) (wake_if_asleep (ms a) i ++ [AResetCheck i])) eqn:E; [|discriminate].
+    destruct (nth_error (stops s) i) as [r|]; [|discriminate]. destruct r; try discriminate.
+    destruct (list_eqb (obs a) (accepted s)); [|discriminate]. injection H as <-.
     apply reset_steps_keep in E; [|apply wake_check_only]. destruct E as (K1 & K2 & K3 & K4).
-    rewrite K1, K2. destruct A as [A|[A|[x [A1 A2]]]]; [left; exact A|right; left; exact A|].
-    right; right. exists x. split; [apply K3; assumption|exact A2].
+    apply ainv_keep; assumption.
   - (* stop end *)
-    destruct (rpc (ms a)), (worker (ms a)) eqn:Ew; try discriminate.
-    + destruct (step (ms a) AResetStart) eqn:E; [|discriminate]. injection H as <-. cbn [ms obs].
-      assert (K : run_strict (ms a) [AResetStart] = Some s) by (cbn [run_strict]; rewrite E; reflexivity).
-      apply reset_steps_keep in K; [|cbn; intros x [<-|[]]; auto]. destruct K as (K1 & K2 & K3 & K4).
-      rewrite K1, K2. destruct A as [A|[A|[x [A1 A2]]]]; [left; exact A|right; left; exact A|].
-      right; right. exists x. split; [apply K3; assumption|exact A2].
-    + injection H as <-. rewrite Ew. exact A.
+    destruct (nth_error (stops (ms a)) i) as [r|]; [|discriminate]. destruct r; try discriminate.
+    + destruct (worker (ms a)) eqn:Ew; [discriminate|].
+      destruct (step true (ms a) (AResetStart i)) eqn:E; [|discriminate]. injection H as <-.
+      keep E. apply ainv_keep; assumption.
+    + destruct (worker (ms a)) eqn:Ew; [discriminate|].
+      destruct (step true (ms a) (AResetWake i)) eqn:E; [|discriminate].
+      destruct (nth_error (stops s) i) as [r|]; [|discriminate]. destruct r; try discriminate.
+      injection H as <-.
+      keep E. apply ainv_keep; assumption.
+    + injection H as <-. exact A.
   - (* app gone *)
-    destruct (step (ms a) AAppDie) eqn:E; [|discriminate]. injection H as <-. cbn [ms obs].
-    assert (K : run_strict (ms a) [AAppDie] = Some s) by (cbn [run_strict]; rewrite E; reflexivity).
-    apply reset_steps_keep in K; [|cbn; intros x [<-|[]]; auto]. destruct K as (K1 & K2 & K3 & K4).
-    rewrite K1, K2. destruct A as [A|[A|[x [A1 A2]]]]; [left; exact A|right; left; exact A|].
-    right; right. exists x. split; [apply K3; assumption|exact A2].
+    destruct (step true (ms a) AAppDie) eqn:E; [|discriminate]. injection H as <-.
+    keep E. apply ainv_keep; assumption.
   - (* move *)
     destruct (worker (ms a)) eqn:Ew.
-    + injection H as <-. rewrite Ew. exact A.
+    + injection H as <-. exact A.
     + destruct (list_eqb (log (ms a)) (obs a)) eqn:El; [|discriminate]. apply list_eqb_eq in El.
-      destruct (step (ms a) AMove) eqn:E; [|discriminate]. injection H as <-. cbn [ms obs].
-      left. step_cases E; injection E as <-; cbn; symmetry; exact El.
+      destruct (step true (ms a) AMove) eqn:E; [|discriminate]. injection H as <-. unfold AInv. cbn [ms obs].
+      left. step_cases E. injection E as <-. cbn. symmetry. exact El.
   - destruct (mem m (accepted (ms a))); [|discriminate]. injection H as <-. exact A.
   - destruct (negb (worker (ms a)) && list_eqb (obs a) (accepted (ms a))); [|discriminate].
     injection H as <-. exact A.
 Qed.
 
-Lemma accept_from_ainv evs : forall k a a', Inv (ms a) -> AInv a -> accept_from k a evs = Accepted a' ->
+Lemma accept_from_ainv evs : forall k a a', Inv (ms a) -> AInv a -> accept_from true k a evs = Accepted a' ->
   Inv (ms a') /\ AInv a'.
 Proof.
   induction evs as [|e r IH]; intros k a a' I A H; cbn [accept_from] in H.
   - injection H as <-. auto.
-  - destruct (astep a e) eqn:E; [|discriminate].
-    destruct (astep_sound _ _ _ E) as [t Ht]. apply run_strict_run in Ht.
+  - destruct (astep true a e) eqn:E; [|discriminate].
+    destruct (astep_sound _ _ _ _ E) as [t Ht]. apply run_strict_run in Ht.
     apply (IH (S k) a0 a'); [rewrite <- Ht; apply run_inv_from; exact I|eapply astep_ainv; eassumption|exact H].
 Qed.
 
-(* For every recording the acceptor accepts: what the sinks were seen to receive is a prefix of
-   what was posted — nothing twice, nothing reordered, nothing skipped — although the acceptor
-   compares the two lists only at the points where the model says they must be equal. *)
-Theorem accept_obs_prefix app0 w0 evs a :
-  accept_shutdown app0 w0 evs = Accepted a -> exists rest, accepted (ms a) = obs a ++ rest.
+Theorem accept_obs_prefix app0 w0 k evs a :
+  accept_shutdown true app0 w0 k evs = Accepted a -> exists rest, accepted (ms a) = obs a ++ rest.
 Proof.
   intros H. unfold accept_shutdown in H.
-  destruct (accept_from_ainv evs 0 (mk_acc (init app0 w0) []) a (init_inv app0 w0) (or_introl eq_refl) H) as [I A].
+  destruct (accept_from_ainv evs 0 (mk_acc (init app0 w0 k) []) a (init_inv app0 w0 k) (or_introl eq_refl) H) as [I A].
   pose proof (i_acc _ I) as Hacc. destruct A as [A|[[m [A1 A2]]|[m [A1 A2]]]].
   - rewrite A. eexists. exact Hacc.
   - rewrite A2, A1 in *. cbn in Hacc. exists (queue (ms a)). rewrite Hacc, <- app_assoc. reflexivity.
@@ -586,18 +752,16 @@ Proof.
     exists [m]. rewrite Hacc. exact A2.
 Qed.
 
-(* and a recording that ends with the process having left static destruction (EExit), or that has
-   just passed the point where a stop quits the thread, has delivered exactly what was posted *)
-Theorem accept_exit_complete app0 w0 evs a :
-  accept_shutdown app0 w0 (evs ++ [EExit]) = Accepted a -> obs a = accepted (ms a) /\ worker (ms a) = false.
+Theorem accept_exit_complete rc app0 w0 k evs a :
+  accept_shutdown rc app0 w0 k (evs ++ [EExit]) = Accepted a -> obs a = accepted (ms a) /\ worker (ms a) = false.
 Proof.
-  unfold accept_shutdown. generalize (mk_acc (init app0 w0) []) as a0. generalize 0 as k.
-  induction evs as [|e r IH]; intros k a0 H; cbn [List.app accept_from] in H.
+  unfold accept_shutdown. generalize (mk_acc (init app0 w0 k) []) as a0. generalize 0 as n.
+  induction evs as [|e r IH]; intros n a0 H; cbn [List.app accept_from] in H.
   - unfold astep in H.
     destruct (worker (ms a0)) eqn:Ew; cbn [negb andb] in H; [discriminate|].
     destruct (list_eqb (obs a0) (accepted (ms a0))) eqn:El; [|discriminate].
     injection H as <-. apply list_eqb_eq in El. auto.
-  - destruct (astep a0 e); [|discriminate]. eapply IH. exact H.
+  - destruct (astep rc a0 e); [|discriminate]. eapply IH. exact H.
 Qed.
 
 Lemma prefix_b_spec a : forall b, prefix_b a b = true <-> exists rest, b = a ++ rest.
@@ -611,9 +775,8 @@ Proof.
     + intros [r Hr]. injection Hr as -> ->. rewrite Nat.eqb_refl. cbn. apply IH. exists r. reflexivity.
 Qed.
 
-(* the boolean oracle evaluated on (posted, delivered) pairs holds in every reachable state *)
-Theorem oracle_holds a w tr :
-  let s := run (init a w) tr in prop_c04_b (accepted s) (log s) (negb (worker s)) = true.
+Theorem oracle_holds a w k tr :
+  let s := run true (init a w k) tr in prop_c04_b (accepted s) (log s) (negb (worker s)) = true.
 Proof.
   intros s. unfold prop_c04_b. destruct (worker s) eqn:Ew; cbn [negb].
   - apply prefix_b_spec. apply log_prefix.
